@@ -64,16 +64,17 @@ def format_pass(chk, tier, want):
                     chk.violation("content:" + a["detail"][0], f"formatting changed the grammar: {a['detail']} on {a['text'][:60]!r}",
                                   {"text": a["text"], "out": a["out"], "detail": a["detail"], "profile": profile})
                 elif a["kind"] == "nonidem" and want == "idem":
-                    chk.violation("nonidem:" + classify_nonidem(a["text"], a["out"], a["out2"]),
-                                  f"format(format(x)) != format(x) for {a['text'][:70]!r}",
-                                  {"text": a["text"], "out": a["out"], "out2": a["out2"], "profile": profile})
+                    for sig in classify_nonidem_all(a["text"], a["out"], a["out2"]):
+                        chk.violation("nonidem:" + sig,
+                                      f"format(format(x)) != format(x) for {a['text'][:70]!r}",
+                                      {"text": a["text"], "out": a["out"], "out2": a["out2"], "profile": profile})
             if profile == "release":
                 for s in summary.get("samples", [])[:2]:
                     chk.sample({"text": s})
     chk.evaluations = total
     chk.nontrivial = set(range(nontriv))
     chk.note("idempotence_checked_on_valid_files", idem_checked)
-    chk.note("exhaustive", f"all sequences of <= {n_items} items over {len(ttext.ALPHABET)} items (char-level claim)" if want == "content" else "n/a")
+    chk.note("exhaustive_part", f"all sequences of <= {n_items} items over {len(ttext.ALPHABET)} items (char-level claim)" if want == "content" else "n/a")
     fa.unlink(missing_ok=True)
     return fv
 
@@ -83,26 +84,80 @@ def _is_comment(line):
     return t.startswith("//") or t.startswith("/*")
 
 
-def classify_nonidem(text, out, out2):
-    """structural signature of a non-fixpoint, read off the first line where pass 1 and pass 2 differ"""
-    a, b = out.split("\n"), (out2 or "").split("\n")
-    for i, (x, y) in enumerate(zip(a, b)):
-        if x == y:
-            continue
-        prev = a[i - 1].rstrip() if i else ""
-        wrapped = len(prev) >= 80
-        if y.strip() == "" and i + 1 < len(b) and b[i + 1].strip() == x.strip() and _is_comment(x):
-            if prev[-1:] in (":", "(", "["):
+_LEX = None
+
+
+def _comments(s):
+    """[(offset, text)] of the comments of s in order (symbols are skipped so that `'//'` is no comment;
+    lelwel block comments do not nest)"""
+    global _LEX
+    import re
+    if _LEX is None:
+        _LEX = re.compile(r"'(?:\\.|[^'\\\n])*'|(//[^\n]*|/\*.*?\*/)", re.S)
+    return [(m.start(1), m.group(1)) for m in _LEX.finditer(s) if m.group(1) is not None]
+
+
+def _moved_to_line_start(text, out, line_no):
+    """True iff the comment that opens line `line_no` of `out` stood, in the input `text`, on the same
+    line as the token before it: the line break in front of it was put there by the printer."""
+    lines = out.split("\n")
+    off = sum(len(l) + 1 for l in lines[:line_no]) + (len(lines[line_no]) - len(lines[line_no].lstrip()))
+    co, ct = _comments(out), _comments(text)
+    if len(co) != len(ct):
+        return False
+    for k, (o, c) in enumerate(co):
+        if o == off:
+            if ct[k][1].rstrip() != c.rstrip():
+                return False
+            before = text[:ct[k][0]].rstrip(" \t\r")
+            return before != "" and not before.endswith("\n")
+    return False
+
+
+def _classify_hunk(text, out, a, b, i1, i2, j1, j2):
+    A, B = a[i1:i2], b[j1:j2]
+    As, Bs = [l.strip() for l in A if l.strip()], [l.strip() for l in B if l.strip()]
+    prev = a[i1 - 1].rstrip() if i1 else ""
+    if As == Bs and As and _is_comment(As[0]):
+        # same lines, the hunk opens with a comment line; only blanks / blank lines differ
+        first_a = next(k for k in range(i1, i2) if a[k].strip())
+        prev = a[first_a - 1].rstrip() if first_a else ""
+        moved = _moved_to_line_start(text, out, first_a)
+        blank_added = sum(1 for l in B if not l.strip()) > sum(1 for l in A if not l.strip())
+        if prev[-1:] in (":", "(", "[") and (blank_added or moved):
+            # pass 1 glues / mis-indents the comment behind the bracket, pass 2 puts a blank line before it
+            if blank_added:
                 return f"blank-line-before-comment-first-after-`{prev[-1:]}`"
-            if wrapped:
-                return "comment-after-wrapped-line"
-            return "blank-line-before-comment:other"
-        if x.strip() == y.strip() and _is_comment(x) and wrapped:
+            return f"indent-of-comment-first-after-`{prev[-1:]}`"
+        if len(As) == 1 and (len(prev) >= 80 or moved):
             return "comment-after-wrapped-line"
-        if x.startswith(y) and y.strip():
-            return "line-split"
+        if blank_added:
+            return "blank-line-before-comment:other"
         return "other"
-    return "length"
+    if len(A) == 1 and len(B) >= 1 and A[0].startswith(B[0]) and B[0].strip():
+        return "line-split"
+    return "other"
+
+
+def classify_nonidem_all(text, out, out2):
+    """structural signatures of a non-fixpoint: one per hunk in which pass 1 and pass 2 differ, so that a
+    text showing a listed finding *and* something else is still reported for the something else"""
+    import difflib
+    a, b = out.split("\n"), (out2 or "").split("\n")
+    sm = difflib.SequenceMatcher(None, a, b, autojunk=False)
+    sigs = []
+    for tag, i1, i2, j1, j2 in sm.get_opcodes():
+        if tag == "equal":
+            continue
+        s = _classify_hunk(text, out, a, b, i1, i2, j1, j2)
+        if s not in sigs:
+            sigs.append(s)
+    return sigs or ["length"]
+
+
+def classify_nonidem(text, out, out2):
+    """one signature per witness: the first one that is not explained by the others' categories"""
+    return classify_nonidem_all(text, out, out2)[0]
 
 
 def llw_disk_check(chk, fv, n):
